@@ -14,9 +14,25 @@ class Unsupported(Exception):
 class PyRaise(Exception):
     """The interpreted code would raise exc_type."""
 
-    def __init__(self, exc_type, msg=""):
+    def __init__(self, exc_type, msg="", value=None):
         Exception.__init__(self, "%s: %s" % (exc_type, msg))
         self.exc_type = exc_type
+        self.msg = msg
+        self.value = value          # the exception object of the model, when there is one
+
+
+class ExcValue:
+    """what `except X as name` binds: str() gives the message, like an exception object"""
+
+    def __init__(self, err):
+        self.err = err
+        self.args = (err.msg,)
+
+    def __str__(self):
+        return str(self.err.msg)
+
+    def __repr__(self):
+        return "%s(%r)" % (self.err.exc_type, self.err.msg)
 
 
 class _Return(Exception):
@@ -290,6 +306,8 @@ class Evaluator:
                     return args[0].get(self, "__abs__")()
                 return abs(args[0])
             if name == "int":
+                if args and isinstance(args[0], Obj):
+                    return args[0].get(self, "__int__")()
                 try:
                     return int(*args)
                 except ValueError as err:
@@ -615,7 +633,19 @@ class Evaluator:
                     raise cur[-1]
                 raise PyRaise("RuntimeError", "No active exception to reraise")
             e = s.exc.func if isinstance(s.exc, ast.Call) else s.exc
-            raise PyRaise(getattr(e, "id", getattr(e, "attr", "Exception")))
+            ename = getattr(e, "id", getattr(e, "attr", "Exception"))
+            # `raise X(args)` where the model knows how X is built: the exception carries its message
+            maker = env.get(ename, self.g.get(ename)) if isinstance(e, ast.Name) else None
+            if isinstance(s.exc, ast.Call) and callable(maker) and not isinstance(maker, type):
+                try:
+                    made = self.call(s.exc, env)
+                except Unsupported:
+                    made = None
+                if isinstance(made, PyRaise):
+                    raise made
+            elif isinstance(s.exc, ast.Name) and isinstance(env.get(s.exc.id), ExcValue):
+                raise env[s.exc.id].err          # `raise err` of a caught exception
+            raise PyRaise(ename)
         elif isinstance(s, ast.Assert):
             if not self.ev(s.test, env):
                 raise PyRaise("AssertionError")
@@ -633,7 +663,7 @@ class Evaluator:
                         names = [getattr(h.type, "id", getattr(h.type, "attr", "?"))]
                     if err.exc_type in names or ("Exception" in names and err.exc_type not in NOT_EXCEPTIONS) or "BaseException" in names:
                         if h.name:
-                            env[h.name] = err
+                            env[h.name] = err.value if err.value is not None else ExcValue(err)
                         if not hasattr(self, "_handling"):
                             self._handling = []
                         self._handling.append(err)
